@@ -702,12 +702,12 @@ def heartbeat_next_to_waiting_caller(rep, T):
         hb._writes_since_check = 0           # nothing was sent during the interval that just passed
         y = threading.Thread(target=timer.function, daemon=True)
         y.start()
-        y.join(1.5)
+        y.join(10.0)
         sent = sum(1 for _, d in sim.wire_out if d == HB_BYTES) - hb_before
         if y.is_alive() or sent < 1:
             rep.violation('C12/heartbeat-held-up-by-waiting-caller',
                           'Connection.channel() was waiting for Channel.OpenOk when the heartbeat interval (T=%s) ended with nothing sent: '
-                          'the timer thread %s and %d heartbeat frames went out' % (T, 'is still blocked after 1.5 s' if y.is_alive() else 'returned', sent), replay)
+                          'the timer thread %s and %d heartbeat frames went out' % (T, 'is still blocked after 10 s' if y.is_alive() else 'returned', sent), replay)
     # let the caller finish
     sim.deliver(pframe.marshal(spec.Channel.OpenOk(), 1))
     x.join(6)
